@@ -109,6 +109,7 @@ type TimeV struct {
 	Inst   *smt.Term // BV64 ns
 	UTC    *smt.Term // Bool: location is UTC
 	IsZero bool      // the zero time.Time (year 1), outside the instant range
+	ZeroT  *smt.Term // Bool (parsed values): the timestamp is exactly the zero time.Time; nil = use IsZero
 	Far    *smt.Term // Bool: the instant lies outside the int64-nanosecond range (Inst is saturated); nil = false
 	Clock  string    // "sp", "wall", "parsed", "cert", "derived", ""
 }
